@@ -243,9 +243,10 @@ pub trait RiRefBufImpl: Sized + RiRefImpl {
 			Some(new_authority) => match parse::find_authority(bytes, 0) {
 				Ok(range) => unsafe { self.replace(range, new_authority.as_bytes()) },
 				Err(start) => {
-					if !bytes[start..].starts_with(b"/") {
+					let path_end = parse::find_path(bytes, 0).end;
+					if start < path_end && !bytes[start..].starts_with(b"/") {
 						// VALIDITY: When an authority is present, the path must
-						//           be absolute.
+						//           be absolute or empty.
 						unsafe {
 							self.allocate(start..start, new_authority.len() + 3);
 							let bytes = self.as_mut_vec();
